@@ -219,3 +219,27 @@ Proof.
   exact unspecified_not_defined_refuted.
 Qed.
 Print Assumptions C07_unspecified_method_not_defined_refuted.
+
+(* derivation histories.  Schemas are derived from one another by include / exclude on ANY earlier schema, in any
+   order, interleaved with reads of the cached statistic.  The object graph the code builds (mutable set objects
+   on a heap, FilterSet.clone copying them) is indistinguishable from value semantics: every schema carries the
+   filter set of ITS OWN chain of calls, whatever was derived from it or next to it *)
+Theorem C07_derived_schema_independent : forall d es,
+  heap_abs (heap_run false d es) = value_run d es.
+Proof. exact derived_schema_independent. Qed.
+Print Assumptions C07_derived_schema_independent.
+
+(* ... and a statistic that was cached is the statistic of the filter set the schema still has *)
+Theorem C07_cached_statistic_fresh : forall d es,
+  Forall (stat_fresh d) (heap_abs (heap_run false d es)).
+Proof. exact cached_statistic_fresh. Qed.
+Print Assumptions C07_cached_statistic_fresh.
+
+(* sentinel: in the variant where clone hands the parent's (non-empty) sets on, the same history is observably
+   different - a child changes its parent (so the theorem above is about the copying, not vacuous) *)
+Theorem C07_shared_clone_not_independent : exists d es,
+  map (observe_node d) (heap_abs (heap_run true d es)) <> map (observe_node d) (value_run d es) /\
+  map (observe_node d) (heap_abs (heap_run false d es)) = map (observe_node d) (value_run d es) /\
+  length (value_run d es) = 3.
+Proof. exists w_hist_doc, w_history. exact shared_clone_not_independent. Qed.
+Print Assumptions C07_shared_clone_not_independent.
